@@ -26,6 +26,16 @@ CLAIMS = {
              "responses that differ from the machine and a random sample are decided by Trace_Server against the ideal clauses.",
         note="trusted: TLC, the scratch-tree builder and the marker/witness scan of the response (status, headers, body); no symlinks in the tree; "
              "equal-to-machine responses are accepted on the strength of O1"),
+    "C03": dict(
+        design="5/C03, 3.3",
+        technique="TLA+ model checking (TLC) of Script.tla (machine refines the ideal relation on every history) + every TLC-enumerated history folded by the real SQLLineageHolder.of + TLC trace validation (Trace_Script) of differing, sampled and LineageRunner executions",
+        text="TLC enumerates all histories of <= 3 (thorough 4) abstract statements over 3 tables incl. DROP, RENAME and two-pair RENAME, checks "
+             "that the fold mechanism is accepted step by step by the ideal relation written from the statement (edge-iff, role definitions, "
+             "order/repetition irrelevance, drop-only-untouched, drop-is-local, rename-removes-old, rename-in-place-when-pure), and prints the "
+             "summary per history; each history is rendered, analysed and folded by the real code and compared; differing ones, a sample and "
+             "longer scripts run through LineageRunner are decided by Trace_Script against the ideal relation.",
+        note="trusted: TLC, the one-spelling renderer of abstract statements, the projection (public summary accessors); "
+             "equal-to-machine histories are accepted on the strength of O1"),
 }
 
 NOT_YET = "check not built yet in this round; planned as described in DESIGN.md section 5"
